@@ -293,6 +293,8 @@ func driveC01(o opts) error {
 						TOp{Kind: "insert", Table: "P", UUID: tg.fresh(), Row: map[string]val.Val{"name": val.VA(gen.AtomN('s', i)), "kids": val.VS(val.Uuid(cu)), "w1": val.VS(val.Uuid(qu)),
 							"m1":  {K: 'm', Map: [][2]val.Atom{{gen.AtomN('s', i), gen.AtomN('s', i+2)}}},
 							"ims": val.VS(gen.AtomN('s', i), gen.AtomN('s', i+1), gen.AtomN('s', i+2)),
+							"ss":  val.VS(gen.AtomN('s', i), gen.AtomN('s', i+1), gen.AtomN('s', i+2)).Canon(),
+							"m":   val.VM([2]val.Atom{gen.AtomN('s', i), gen.AtomN('s', i+1)}, [2]val.Atom{gen.AtomN('s', i+3), gen.AtomN('s', i)}).Canon(),
 							"imm": {K: 'm', Map: [][2]val.Atom{{gen.AtomN('s', i), gen.AtomN('s', i+1)}, {gen.AtomN('s', i+3), gen.AtomN('s', i)}}}}})
 				}
 			}
